@@ -60,6 +60,10 @@ CLAIMED["C19"] = dict(cat="exploration",
    text="Seeded simulation of two worlds fed the same program (backup, forget, repacking prune, check +/- read-data, full read-back, get a snapshot by full id): in one world operations alternate between a handle with a cache directory on tmpfs and an uncached handle on the same SimStore, with cache faults planted between operations (truncated/extended/deleted entries, entries for unknown ids, non-hex names, -tmp- leftovers, a foreign repository directory); in the other every operation is uncached. Per operation the Ok/Err class and the logical result (snapshot trees, check verdict, read-back verdict) must agree, both worlds must end readable and check-clean, and after a listing through the cached handle the cache must hold no snapshot/index entry that the store lacks or that has another size.",
    ref="5 C19", note="File ids differ between the worlds, so results are compared logically. The cache directory is real tmpfs.",
    tech="deterministic simulation: twin-world differential execution with planted cache states")
+CLAIMED["C17"] = dict(cat="exploration",
+   text="Seeded simulation: generated collections of 0-6 index files (duplicates across packs and files, the same id under both types, empty packs, marked packs, packs listed normally and marked, boundary offsets/sizes), written by the simulator's own JSON writer and AEAD encoder, are loaded through the real rayon loader in all three modes (full, ids-only, trees-only) under seeded gate schedules that permute the arrival order of the index files, pool sizes 1-3; every listed id, its neighbours, pack ids, special and random ids are queried through the verif hooks and judged against a map model built from the generator's data; one load per position of a failing index read and one with a failing listing must return Err or a complete index.",
+   ref="5 C17", note="Packs mixing blob types are outside the statement's domain: deviations there are counted, not flagged. The *_checked loaders are not covered.",
+   tech="deterministic simulation: reference map model vs real parallel index loader under seeded arrival orders and read faults")
 NOT_YET = {}
 NA = {
  "C09": "pure function of its arguments (snapshot list, keep options, explicit 'now'): no schedule, clock read, I/O, fault or history for a simulator to own; see DESIGN.md section 6",
